@@ -716,6 +716,13 @@ static int addRequest(KSI_AsyncClient *c, KSI_AsyncHandle *handle, void *req,
 		goto cleanup;
 	}
 
+	/* The response to a configuration request carries no identifier and there is a single slot for it: a configuration
+	 * request that has not been handed back yet must not be displaced (it would be lost while still counted as pending). */
+	if (hasConfig && c->serverConf != NULL && (c->serverConf->aggrReq != NULL || c->serverConf->extReq != NULL)) {
+		KSI_pushError(c->ctx, res = KSI_INVALID_STATE, "A configuration request is already outstanding.");
+		goto cleanup;
+	}
+
 	/* Cleanup the handle in case it has been added repeteadly. */
 	KSI_free(handle->raw);
 	handle->raw = NULL;
@@ -821,6 +828,10 @@ static int addRequest(KSI_AsyncClient *c, KSI_AsyncHandle *handle, void *req,
 			confHandle = handle;
 		}
 
+		if (c->serverConf != NULL) {
+			/* A pushed configuration that has not been collected is superseded by the request. */
+			c->received--;
+		}
 		KSI_AsyncHandle_free(c->serverConf);
 		c->serverConf = confHandle;
 		confHandle = NULL;
